@@ -35,7 +35,7 @@
 (*     caller's scopes are back unchanged;                                  *)
 (*   - when the run ends no local scope is left.                            *)
 (***************************************************************************)
-EXTENDS Naturals, Sequences
+EXTENDS Naturals, Sequences, FiniteSets
 
 VARIABLES g, loc, saved
 svars == <<g, loc, saved>>
@@ -104,11 +104,16 @@ Declare(n, v) ==
   ELSE /\ n \notin DOMAIN Last(loc).vars
        /\ loc' = [loc EXCEPT ![Len(loc)].vars = Bind(Last(loc).vars, n, v)]
        /\ UNCHANGED <<g, saved>>
+\* the number of names the innermost scope holds (what a scope that was really made for this block holds)
+TopSize == IF Len(loc) = 0 THEN Cardinality(DOMAIN g) ELSE Cardinality(DOMAIN Last(loc).vars)
 
 Update(n, v) ==
   LET i == Find(n, Len(loc))
   IN Open /\ IF i # 0 THEN loc' = [loc EXCEPT ![i].vars = Bind(loc[i].vars, n, v)] /\ UNCHANGED <<g, saved>>
      ELSE n \in DOMAIN g /\ g' = Bind(g, n, v) /\ UNCHANGED <<loc, saved>>
+
+\* how many scopes lie between the innermost scope and the binding of n (the globals come after all of loc)
+Distance(n) == LET i == Find(n, Len(loc)) IN IF i # 0 THEN Len(loc) - i ELSE Len(loc)
 
 \* reading a variable gives the value of its innermost binding
 Get(n, v) == /\ Open /\ Bound(n)
